@@ -833,6 +833,18 @@ theorem complex_hermitian_covered {n : Type} [Fintype n] (M : Matrix n n ℂ) (b
   by_contra h0
   exact absurd hv (ne_of_gt (h.P_pos v h0))
 
+/-- Exact termination for complex Hermitian positive definite `n × n` systems (with optional Hermitian positive definite
+    preconditioner): CG makes at most `2n` passes through its loop (`2n` = real dimension of `ℂⁿ`; the classical sharper
+    bound `n` is **not** proved — it needs the complex-linear structure that the real-scalar model does not see). -/
+theorem cg_exact_complex {τ : Type} {n : ℕ} (M : Matrix (Fin n) (Fin n) ℂ) (b : Option (Fin n → ℂ))
+    (N : Option (Matrix (Fin n) (Fin n) ℂ)) (ninfsq : (Fin n → ℂ) → ℝ) (hM : M.conjTranspose = M)
+    (hMpos : ∀ x : Fin n → ℂ, x ≠ 0 → 0 < (star x ⬝ᵥ M.mulVec x).re)
+    (hN : ∀ N', N = some N' → N'.conjTranspose = N' ∧ ∀ x : Fin n → ℂ, x ≠ 0 → 0 < (star x ⬝ᵥ N'.mulVec x).re)
+    (c : Ctrl ℝ τ) (nreset : Int) (fuel : Nat) (hfuel : 2 * n ≤ fuel) (x0 : Fin n → ℂ) :
+    (cg (complexSys M b N ninfsq) c nreset fuel (QE.at (complexSys M b N ninfsq) x0)).reason ≠ .fuel ∧
+    (cg (complexSys M b N ninfsq) c nreset fuel (QE.at (complexSys M b N ninfsq) x0)).iters.length ≤ 2 * n :=
+  cg_exact_complexSys M b N ninfsq hM hMpos hN c nreset fuel hfuel x0
+
 /-- non-vacuity: `M = 2·1` on `ℂ²`, no preconditioner -/
 example : (complexSys ((2 : ℂ) • (1 : Matrix (Fin 2) (Fin 2) ℂ)) none none (fun _ => 0)).SPDP := by
   refine (complex_hermitian_covered _ none none _ ?_ ?_ ?_).1
